@@ -43,7 +43,7 @@ RULE = ("case = 1..4 program trees (Seq | Try(filter set of 1,2,3,5 or 8 kinds o
         "lexical template 1..4 | Nest(cnt directly nested try blocks with one filter and handler, cnt 2..40 or around "
         "255/256/257, 1000, 2000; open blocks per tree <= the library's 2048; nests of exactly 2047 and 2048 blocks are enumerated)), first tree height <= 6 and <= 40 "
         "nodes (templates counted expanded, a Nest counted as one level), further trees "
-        "<= 12 nodes, 10 exception kinds incl. three user objects whose names are prefixes of one another; a throw is "
+        "<= 12 nodes, 19 exception kinds (every built-in exception object and three user objects whose names are prefixes of one another); a throw is "
         "the throw macro with a short, 300 or 6000 character message, or an exception raised by a library function "
         "called at that point (assign/get/cast/stell/len/print_to); run by the real macros in the executor's main thread "
         "or (a quarter of the cases, per tree) in a fresh Cello Thread while the main thread holds 0..3 try blocks open, in the "
@@ -66,7 +66,11 @@ ASSUMPTIONS = ["filters are sets: `catch (e in X, X)` (the same object twice) is
                "- in either kind of thread - is observed as exit status and stderr of a forked child"]
 
 KN = ["TypeError", "KeyError", "ValueError", "IOError", "UserExc", "UserExcEOF", "User",
-      "IndexOutOfBoundsError", "ClassError", "FormatError"]
+      "IndexOutOfBoundsError", "ClassError", "FormatError",
+      # the remaining built-in exception objects (every built-in one is a kind of its own: a filter naming one of them
+      # must not match another)
+      "BusyError", "ResourceError", "OutOfMemoryError", "SegmentationError", "ProgramAbortedError", "DivisionByZeroError",
+      "IllegalInstructionError", "ProgramInterruptedError", "ProgramTerminationError"]
 NK = len(KN)
 LIBK = (0, 1, 2, 3, 7, 8, 9)        # kinds some library function raises on request (harness/ex_exc.c lib_raise)
 ARITIES = (1, 2, 3, 5, 8)           # one real catch site per filter arity
